@@ -335,7 +335,10 @@ pub fn c09(rng: &mut Rng, thorough: bool) -> Scenario {
     for _ in 0..steps {
         match rng.below(10) {
             0..=5 => {
-                let spec = BatchSpec { size: rng.range(1, 40) as usize, mix: if rng.chance(1, 4) { ValueMix::Boundary } else { ValueMix::Small }, p_delete: 30, p_read: 10, p_rw: 40, p_existing: 50 };
+                // now and then a commit that writes nothing (empty or read-only batch): it still is a
+                // commit that rollback must count
+                let nothing = rng.chance(1, 6);
+                let spec = BatchSpec { size: if nothing { rng.below(3) as usize } else { rng.range(1, 40) as usize }, mix: if rng.chance(1, 4) { ValueMix::Boundary } else { ValueMix::Small }, p_delete: 30, p_read: if nothing { 100 } else { 10 }, p_rw: 40, p_existing: 50 };
                 let batch = gen_batch(rng, &mut kg, &live, &spec);
                 live.apply(&batch);
                 if rng.chance(1, 4) {
